@@ -311,6 +311,24 @@ pub fn named(name: &str, st: &mut Vec<V>) {
         "convert_batch" => { let n = st.len(); let v: Vec<Element> = (0..n).map(|_| pop_e(st)).collect(); let v: Vec<Element> = v.into_iter().rev().collect();
             for a in Element::batch_convert_to_mul_base(&v) { st.push(V::A(a)) } }
         #[cfg(feature = "ark")]
+        "sample_stuck" => {
+            // a generator that repeats one 64-bit word for a long prefix (a broken entropy source), then recovers: every element handed out must still be valid
+            use ark_std::UniformRand; use ark_std::rand::RngCore;
+            struct Stuck<R: RngCore> { left: usize, word: u64, inner: R }
+            impl<R: RngCore> RngCore for Stuck<R> {
+                fn next_u32(&mut self) -> u32 { self.next_u64() as u32 }
+                fn next_u64(&mut self) -> u64 { if self.left > 0 { self.left -= 1; self.word } else { self.inner.next_u64() } }
+                fn fill_bytes(&mut self, dest: &mut [u8]) { for c in dest.chunks_mut(8) { let w = self.next_u64().to_le_bytes(); c.copy_from_slice(&w[..c.len()]); } }
+                fn try_fill_bytes(&mut self, dest: &mut [u8]) -> Result<(), ark_std::rand::Error> { self.fill_bytes(dest); Ok(()) }
+            }
+            for (n, w) in [(1400usize, 0x0f0f0f0f0f0f0f0fu64), (3000, 0x0f0f0f0f0f0f0f0f), (1400, 0x0101010101010101), (1400, 0x2222222222222222)] {
+                let mut rng = Stuck { left: n, word: w, inner: ark_std::test_rng() };
+                st.push(V::E(Element::rand(&mut rng)));
+                let mut rng = Stuck { left: n, word: w, inner: ark_std::test_rng() };
+                st.push(V::A(Aff::rand(&mut rng)));
+            }
+        }
+        #[cfg(feature = "ark")]
         "sample" => { use ark_std::UniformRand; let mut rng = ark_std::test_rng(); for _ in 0..8 { st.push(V::E(Element::rand(&mut rng))); st.push(V::A(Aff::rand(&mut rng))); } }
         #[cfg(feature = "ark")]
         "normalize_batch" => { let n = st.len(); let v: Vec<Element> = (0..n).map(|_| pop_e(st)).collect(); let v: Vec<Element> = v.into_iter().rev().collect();
